@@ -344,6 +344,7 @@ package jsonpatch
 
 //@ func (*partialDoc).UnmarshalJSON
 //@   requires recv: n != nil && allocated(n) && n.obj == nil && wf(data)
+//@   modifies n.obj, n.keys
 //@   ensures[C01] obj-iff: (err == nil && n.obj != nil) <==> kind(val(data)) == KObj
 //@   ensures[C01] null: kind(val(data)) == KNull ==> err == nil && n.obj == nil
 //@   ensures[C01] other: kind(val(data)) != KNull && kind(val(data)) != KObj ==> err != nil && n.obj == nil
@@ -352,6 +353,7 @@ package jsonpatch
 
 //@ func (*partialArray).UnmarshalJSON
 //@   requires recv: n != nil && allocated(n) && n.nodes == nil && wf(data)
+//@   modifies n.nodes
 
 //@ func (*AccumulatedCopySizeError).Error
 //@   requires recv: a != nil
@@ -620,6 +622,8 @@ package jsonpatch
 //@   callsite[C14] add#2 array-stored-under-decoded-token: arg_key == unescape(part)
 //@   callsite[C14] add#4 object-stored-under-decoded-token: arg_key == unescape(part)
 //@   callsite[C14] add#1 padding-appends: arg_key == itoa(i)
+//@   callsite[C14] Errorf#1 only-a-negative-number-is-an-invalid-index: atoiOK(parts[pi + 1]) && atoiVal(parts[pi + 1]) < 0 && !options.SupportNegativeIndices
+//@   callsite[C14] Errorf#2 only-a-number-below-minus-one-is-refused-when-negative-indices-are-on: atoiOK(parts[pi + 1]) && atoiVal(parts[pi + 1]) < 0 - 1 && options.SupportNegativeIndices
 //@   callsite[C14,C15] intoDoc#1 a-created-object-is-parsed-with-the-call-options: arg_n == newNode && arg_options == options
 //@   callsite[C14,C15] intoDoc#2 an-existing-object-is-parsed-with-the-call-options: arg_n == target && arg_options == options
 //@   callsite[C14] intoAry#1 a-created-array-is-parsed: arg_n == newNode
@@ -771,11 +775,11 @@ package jsonpatch
 //@   assume A-merge-entry: noNullKids()
 //@   ensures[C02,C16] rejects-ill-formed-doc: !wf(docData) ==> err != nil && result.0 == nil
 //@   ensures[C02,C16] rejects-ill-formed-patch: !wf(patchData) ==> err != nil && result.0 == nil
-//@   ensures[C02,C07] null-document-is-rejected: wf(docData) && wf(patchData) && kind(val(docData)) == KNull ==> err != nil && result.0 == nil
-//@   ensures[C02,C07] a-literal-patch-replaces-the-document-verbatim: wf(docData) && wf(patchData) && kind(val(docData)) != KNull && kind(val(patchData)) != KObj && kind(val(patchData)) != KArr ==> err == nil && result.0 == patchData
-//@   ensures[C02,C07] two-objects-are-merged: wf(docData) && wf(patchData) && kind(val(docData)) == KObj && kind(val(patchData)) == KObj ==> reached(mergeDocs#1) && reached(Marshal#2)
-//@   ensures[C02] an-object-patch-on-a-non-object-document-is-pruned: wf(docData) && wf(patchData) && kind(val(docData)) != KObj && kind(val(docData)) != KNull && kind(val(patchData)) == KObj && !mergeMerge ==> reached(pruneDocNulls#1) && !reached(mergeDocs#1) && reached(Marshal#2)
-//@   ensures[C02,C07] an-array-patch-replaces-the-document: wf(docData) && wf(patchData) && kind(val(docData)) != KNull && kind(val(patchData)) == KArr ==> reached(pruneAryNulls#1) && reached(Marshal#1) && !reached(mergeDocs#1)
+//@   ensures[C02,C07] null-document-is-rejected: old(wf(docData) && wf(patchData) && kind(val(docData)) == KNull) ==> err != nil && result.0 == nil
+//@   ensures[C02,C07] a-literal-patch-replaces-the-document-verbatim: old(wf(docData) && wf(patchData) && kind(val(docData)) != KNull && kind(val(patchData)) != KObj && kind(val(patchData)) != KArr) ==> err == nil && result.0 == patchData
+//@   ensures[C02,C07] two-objects-are-merged: old(wf(docData) && wf(patchData) && kind(val(docData)) == KObj && kind(val(patchData)) == KObj) ==> reached(mergeDocs#1) && reached(Marshal#2)
+//@   ensures[C02] an-object-patch-on-a-non-object-document-is-pruned: old(wf(docData) && wf(patchData) && kind(val(docData)) != KObj && kind(val(docData)) != KNull && kind(val(patchData)) == KObj && !mergeMerge) ==> reached(pruneDocNulls#1) && !reached(mergeDocs#1) && reached(Marshal#2)
+//@   ensures[C02,C07] an-array-patch-replaces-the-document: old(wf(docData) && wf(patchData) && kind(val(docData)) != KNull && kind(val(patchData)) == KArr) ==> reached(pruneAryNulls#1) && reached(Marshal#1) && !reached(mergeDocs#1)
 //@   callsite[C02,C07] mergeDocs#1 the-decoded-document-is-merged-with-the-decoded-patch: arg_doc == doc && arg_patch == patch && (arg_mergeMerge <==> mergeMerge)
 //@   callsite[C02] pruneDocNulls#1 the-patch-is-pruned: arg_doc == patch
 
